@@ -18,10 +18,18 @@ def derive_seed(*parts) -> int:
 
 
 class Chooser:
-    def __init__(self, seed: int | None = None, replay: list[int] | None = None):
-        assert (seed is None) != (replay is None)
+    """Three modes: seeded (draw and record), positional replay (a flat list of ints) and label-keyed replay
+    (`by_label`: {label: [values of that label in order of occurrence]}).  Label-keyed replay is what the
+    minimiser works on: removing or simplifying the choices of one label (say, fewer players) does not shift the
+    meaning of every later choice, which is where positional shrinking gets stuck.  In every mode a missing
+    value is 0 (the simplest alternative) and values are reduced mod n, so every input is a valid run."""
+
+    def __init__(self, seed: int | None = None, replay: list[int] | None = None, by_label: dict | None = None):
+        assert sum(x is not None for x in (seed, replay, by_label)) == 1
         self.rng = random.Random(seed) if seed is not None else None
         self.replay = list(replay) if replay is not None else None
+        self.by_label = {k: list(v) for k, v in by_label.items()} if by_label is not None else None
+        self.seen: dict[str, int] = {}
         self.pos = 0
         self.values: list[int] = []
         self.labels: list[str] = []
@@ -31,6 +39,11 @@ class Chooser:
         assert n >= 1, (label, n)
         if self.rng is not None:
             v = self.rng.randrange(n) if n > 1 else 0
+        elif self.by_label is not None:
+            k = self.seen.get(label, 0)
+            self.seen[label] = k + 1
+            lst = self.by_label.get(label, ())
+            v = lst[k] % n if k < len(lst) else 0
         else:
             v = self.replay[self.pos] % n if self.pos < len(self.replay) else 0
         self.pos += 1
@@ -61,3 +74,10 @@ class Chooser:
 
     def labelled(self):
         return [[l, n, v] for l, n, v in zip(self.labels, self.ns, self.values)]
+
+    def grouped(self):
+        """The drawn values as {label: [values]} (insertion order = first occurrence)."""
+        out: dict[str, list[int]] = {}
+        for l, v in zip(self.labels, self.values):
+            out.setdefault(l, []).append(v)
+        return out
